@@ -34,8 +34,11 @@ SET_CALLABLES = [("$x._callables = $v", "x", "(LL.setCallables {x} {v})")]
 RAISES = {"ValueError": ".error .value", "TypeError": ".error .type", "IndexError": ".error .index"}
 
 
+GEN = dict(strings="()", inline=True)      # messages are one unit value; same-module helpers are inlined
+
+
 def rules_getitem():
-    return G.Rules2G(expr=[
+    return G.Rules2G(**GEN, expr=[
         ("getattr($x, 'ndim', None) != 0", "(!{x}.zeroDim)"),
         ("getattr($x, 'ndim', None) == 0", "{x}.zeroDim"),
         ("isinstance($x, int)", "{x}.isInt"),
@@ -47,12 +50,12 @@ def rules_getitem():
 
 
 def rules_plain(ret="{e}"):
-    return G.Rules2G(expr=COMMON, stmt=SET_CALLABLES, iterable="(PyIter.iter {e})", ret=ret, raise_=None,
+    return G.Rules2G(**GEN, expr=COMMON, stmt=SET_CALLABLES, iterable="(PyIter.iter {e})", ret=ret, raise_=None,
                      raise_by=RAISES)
 
 
 def rules_ctor():
-    return G.Rules2G(expr=[
+    return G.Rules2G(**GEN, expr=[
         ("cls($x)", "(LL.new {x})"),
         ("partial($f, $x)", "(PyPartial.ap {f} {x})"),
         ("range($n)", "(Py.range {n})"),
@@ -60,27 +63,28 @@ def rules_ctor():
 
 
 def rules_map():
-    return G.Rules2G(expr=[
+    return G.Rules2G(**GEN, expr=[
         ("callable($x)", "{x}.callable"),
         ("len(f)", "(MArg.lenE f)", "bind"),
-        ("zip(f, $c)", "(List.zip f.fns {c})"),
-        ("partial(delayed, f, $x)", "(LThunk.app f.fn {x})"),
-        ("partial(delayed, $g, $x)", "(LThunk.app {g} {x})"),
+        ("zip($a, $b)", "(List.zip (PyIter.iter {a}) (PyIter.iter {b}))"),
+        ("partial(delayed, $g, $x)", "(LThunk.app (ToFnId.fid {g}) {x})"),
+        ("partial(_delayed, $g, $x)", "(LThunk.app (ToFnId.fid {g}) {x})"),
         ("$x.copy()", "(genCopy {x})"),
     ] + COMMON, stmt=SET_CALLABLES, iterable="(PyIter.iter {e})", ret="(.ok {e})", raise_=None, raise_by=RAISES,
         skip_defs=["delayed"])
 
 
 def rules_delayed():
-    return G.Rules2G(expr=[
+    return G.Rules2G(**GEN, expr=[
         ("$t()", "(Py.callThunk e bad {t})"),
         ("$f($v)", "(Py.callFn e bad {f} {v})"),
     ], ret="{e}", raise_=None, raise_by=RAISES)
 
 
 def rules_repeat():
-    return G.Rules2G(expr=[
+    return G.Rules2G(**GEN, expr=[
         ("chain(*$x)", "(Py.chainStar {x})"),
+        ("chain.from_iterable($x)", "(Py.chainStar {x})"),
         ("zip(*$x)", "(Py.zipStar {x})"),
         ("$x.copy()", "(genCopy {x})"),
     ] + COMMON, stmt=SET_CALLABLES, ret="{e}", raise_=None, raise_by=RAISES,
@@ -88,7 +92,7 @@ def rules_repeat():
 
 
 def rules_add():
-    return G.Rules2G(expr=[
+    return G.Rules2G(**GEN, expr=[
         ("isinstance($x, LazyList)", "{x}.isLazy"),
         ("LazyList.init_from_iterable($x)", "(genInitFromIterable {x}.items PFn.none)", "bind"),
         ("LazyList($x)", "(LL.new {x})"),
@@ -105,35 +109,35 @@ IO_COMMON = [
 
 
 def rules_glob_with_suffix():
-    return G.Rules2G(expr=[
+    return G.Rules2G(**GEN, expr=[
         ("_pathlib_glob_for_pattern($p, sort=$s)", "(w.listing {s})"),
     ] + IO_COMMON, ret="{e}", raise_=None, raise_by=RAISES)
 
 
 def rules_importer_for():
-    return G.Rules2G(expr=[
+    return G.Rules2G(**GEN, expr=[
         ("$m.get($k)", "(Py.dictGet {m} {k})"),
         ("$l.pop(0)", "(List.headD {l} 0)", "mut", "l", "(List.tail {l})"),
-    ] + IO_COMMON, ret="{e}", raise_="none", truthy={"possible_exts": "(Py.truthyList {e})"},
-        fuel="({possible_exts}.length + 1)", fuel_out="none")
+    ] + IO_COMMON, ret="{e}", raise_="none", typed=[("_possible_extensions_from_filepath($p)", "extlist")],
+        truthy={"extlist": "(Py.truthyList {e})"}, fuel_by_type={"extlist": "({e}.length + 1)"}, fuel_out="none")
 
 
 def rules_import_glob():
-    return G.Rules2G(expr=[
+    return G.Rules2G(**GEN, expr=[
         ("glob_with_suffix($p, $m, sort=$s)", "(genGlobWithSuffix w {p} {m} {s})"),
-        ("max_assets <= $n", "(Py.optLe max {n})", "bind"),
+        ("$v <= $n", "(Py.optLe {v} {n})", "bind", {"v": "optint"}),
         ("$l[:$n]", "(Py.sliceTo {l} {n})"),
         ("LazyList($x)", "(LL.new {x})", "bind"),
         ("partial(_import, $f, $m, landmark_resolver=$r, landmark_ext_map=$lx, landmark_attach_func=$la, "
          "importer_kwargs=$kw)", "(importThunkSrc {m} {r} {lx} {la} {f})"),
-        ("print_progress($x, prefix='Importing assets', n_items=$n)", "(Py.progress {x})"),
+        ("print_progress($x, prefix=$p, n_items=$n)", "(Py.progress {x})"),
     ] + IO_COMMON, stmt=[("random.shuffle($x)", "x", "(w.shuffled {x})")], skip=["print($x)"],
-        truthy={"max_assets": "(Py.truthyOptInt {e})"}, iterable="(PyIter.iter {e})", genexp="(GlobRes.gen {e})",
+        var_types={"max_assets": "optint"}, truthy={"optint": "(Py.truthyOptInt {e})"}, iterable="(PyIter.iter {e})", genexp="(GlobRes.gen {e})",
         ret="(.ok (ToGlobRes.ret {e}))", raise_=None, raise_by=RAISES)
 
 
 def rules_attach_lazy():
-    return G.Rules2G(expr=[
+    return G.Rules2G(**GEN, expr=[
         ("enumerate($x)", "(Py.enumerate {x})"),
         ("range($n)", "(Py.range {n})"),
         ("$x.path", "()"),
@@ -146,7 +150,7 @@ def rules_attach_lazy():
 
 
 def rules_import():
-    return G.Rules2G(expr=[
+    return G.Rules2G(**GEN, expr=[
         ("_norm_path($x)", "{x}"),
         ("$p.is_file()", "(w.isFile {p})"),
         ("importer_for_filepath($p, $m)", "(optE (genImporterFor {p} {m}))", "bind"),
@@ -173,6 +177,20 @@ open MenpoModel.LazyList MenpoModel.PyData
 FOOTER = "\nend MenpoModel.Generated.C19Src\n"
 
 
+def delayed_node(LL):
+    """`delayed`: nested in LazyList.map, or (after an extraction) a function of menpo.base / a static method"""
+    try:
+        return G.Translator2G.nested(LL.map, "delayed")
+    except P.Untranslatable:
+        import menpo.base as MB
+        for owner in (MB, LL):
+            for name in ("delayed", "_delayed"):
+                f = getattr(owner, name, None)
+                if callable(f):
+                    return P.source_ast(getattr(f, "__func__", f))[0]
+        raise
+
+
 def items():
     """[(lean signature ending in `:=`, thunk -> body, stub body)] in dependency order"""
     from menpo.base import LazyList
@@ -197,7 +215,7 @@ def items():
             LL.init_from_index_callable.__func__, {"cls": "cls", "f": "f", "n_elements": "n"}), ".error .type")
     add("def genDelayed (e : Env) (bad : Nat → Bool) (f : Nat) (t : LThunk) : Except Err Int × List Ev :=",
         lambda: G.Translator2G(rules_delayed()).function_node(
-            G.Translator2G.nested(LL.map, "delayed"), {"delay_f": "f", "delay_x": "t"}), "(.error .type, [])")
+            delayed_node(LL), {"delay_f": "f", "delay_x": "t"}), "(.error .type, [])")
     add("def genMap (s : LL) (f : MArg) : Except Err LL :=",
         lambda: G.Translator2G(rules_map()).function(LL.map, {"self": "s", "f": "f"}), ".error .type")
     add("def genRepeat (s : LL) (n : Int) : LL :=",
